@@ -134,6 +134,172 @@ Qed.
 
 Print Assumptions guarded_agrees_lemma.
 
+(* ---------- T2: a guarded run never holds more than limit + 1 - base slots ---------- *)
+
+(* the storage only grows, and base + length stays within limit + 1 (index limit is the last one
+   that may be appended) *)
+Definition sok (limit db : nat) (st st' : list value) : Prop :=
+  length st <= length st' /\ db + length st' <= S limit.
+
+Lemma overflow_false limit db st i :
+  overflow limit db st i = false -> i <> length st \/ db + i <= limit.
+Proof.
+  unfold overflow. intros H. apply andb_false_iff in H. destruct H as [H|H].
+  - left. apply Nat.eqb_neq. exact H.
+  - right. apply Nat.ltb_ge. exact H.
+Qed.
+
+Lemma sok_push limit db st0 st i v :
+  sok limit db st0 st -> i <= length st -> overflow limit db st i = false ->
+  sok limit db st0 (set_slot st i v) /\ S i <= length (set_slot st i v).
+Proof.
+  intros [G B] Hi O. unfold sok. rewrite RelProofs.length_set by exact Hi.
+  destruct (overflow_false _ _ _ _ O); lia.
+Qed.
+
+Section Bound.
+Variable known : list (N * list name).
+Variable limit : nat.
+Variable E' : gexec_t.
+Hypothesis HB : forall db am cm st offs size cs a,
+  offs + size <= length st -> db + length st <= S limit ->
+  sok limit db st (snd (E' db am cm st offs size cs a)).
+
+Section Frame.
+Variable db : nat.
+Variable am : list (option name).
+Variable cm : list name.
+Variables offs size : nat.
+Variable cs : list value.
+
+(* run a sub-expression on the current storage st1 (reached from st0) *)
+Ltac useB st0 :=
+  match goal with
+  | |- context [E' ?d ?am' ?cm' ?s0 ?o ?s ?cs' ?a] =>
+      let H := fresh "K" in
+      assert (H : sok limit d s0 (snd (E' d am' cm' s0 o s cs' a)))
+        by (apply HB; unfold sok in *; lia);
+      destruct (E' d am' cm' s0 o s cs' a) as [?r ?sx]; cbn [fst snd] in H |- *
+  end.
+
+Ltac done := unfold sok in *; cbn [fst snd]; lia.
+
+Lemma q_call_ok c n st0 st fb :
+  sok limit db st0 st -> fb + n <= length st ->
+  sok limit db st0 (snd (q_call E' db c n st fb)).
+Proof.
+  intros K Hn. destruct c; cbn [q_call snd]; try exact K.
+  assert (H := HB db (map Some ps) (clo_cm cap self) st fb n (clo_cs cap self (VClo ps body cap self)) body Hn (proj2 K)).
+  unfold sok in *. lia.
+Qed.
+
+Lemma q_args_ok st0 : forall l pushed st acc,
+  sok limit db st0 st -> offs + size <= length st0 -> offs + size + pushed <= length st ->
+  sok limit db st0 (snd (q_args limit E' db am cm offs size cs l pushed st acc)) /\
+  (forall vs, fst (q_args limit E' db am cm offs size cs l pushed st acc) = Ok vs ->
+              offs + size + pushed + length l <= length (snd (q_args limit E' db am cm offs size cs l pushed st acc))).
+Proof.
+  induction l as [|x l IH]; intros pushed st acc K H0 Hp; cbn [q_args].
+  - cbn [fst snd length]. split; [exact K|]. intros _ _. lia.
+  - useB st0. destruct r; cbn [fst snd]; try (split; [done|discriminate]).
+    destruct (overflow limit db sx (offs + size + pushed)) eqn:O; [cbn [fst snd]; split; [done|discriminate]|].
+    assert (K1 : sok limit db st0 sx) by done.
+    destruct (sok_push limit db st0 sx (offs + size + pushed) a K1 ltac:(unfold sok in *; lia) O) as [K2 L2].
+    destruct (IH (S pushed) (set_slot sx (offs + size + pushed) a) (acc ++ [a]) K2 H0 ltac:(lia)) as [K3 L3].
+    split; [exact K3|]. intros vs Hv. specialize (L3 vs Hv). cbn [length]. lia.
+Qed.
+
+Lemma q_plain_ok st0 : forall l st,
+  sok limit db st0 st -> offs + size <= length st0 ->
+  sok limit db st0 (snd (q_plain E' db am cm offs size cs l st)).
+Proof.
+  induction l as [|x l IH]; intros st K H0; cbn [q_plain]; [exact K|].
+  useB st0. destruct r; cbn [fst snd]; try done.
+  assert (K1 : sok limit db st0 sx) by done.
+  specialize (IH sx K1 H0). destruct (q_plain E' db am cm offs size cs l sx) as [[| | | |] st2]; exact IH.
+Qed.
+
+Lemma q_switch_ok st0 sv d : forall l st,
+  sok limit db st0 st -> offs + size <= length st0 ->
+  sok limit db st0 (snd (q_switch E' db am cm offs size cs sv d l st)).
+Proof.
+  induction l as [|[cc cr] l IH]; intros st K H0; cbn [q_switch].
+  - useB st0. done.
+  - useB st0. destruct r; cbn [fst snd]; try done.
+    assert (K1 : sok limit db st0 sx) by done.
+    destruct (equal_fg sv a) as [[|]| | | |]; cbn [fst snd]; try exact K1.
+    + useB st0. done.
+    + apply IH; auto.
+Qed.
+
+Lemma q_map_ok st0 : forall m st acc,
+  sok limit db st0 st -> offs + size <= length st0 ->
+  sok limit db st0 (snd (q_map E' db am cm offs size cs m st acc)).
+Proof.
+  induction m as [|[k x] m IH]; intros st acc K H0; cbn [q_map]; [exact K|].
+  useB st0. destruct r; cbn [fst snd]; try done.
+  apply IH; auto. done.
+Qed.
+
+Ltac facts :=
+  unfold sok in *;
+  repeat match goal with H : Nat.eqb _ _ = true |- _ => apply Nat.eqb_eq in H end.
+
+Ltac stepB st :=
+  first
+    [ useB st
+    | match goal with
+      | |- context [if overflow limit db ?s ?i then _ else _] =>
+          let O := fresh "O" in
+          destruct (overflow limit db s i) eqn:O;
+          [ | match goal with
+              | |- context [set_slot s i ?v] =>
+                  let K := fresh "K" in let L := fresh "L" in
+                  assert (K : sok limit db st s) by (facts; lia);
+                  destruct (sok_push limit db st s i v K ltac:(facts; lia) O) as [?K L]
+              end ]
+      | |- context [q_args limit E' db am cm offs size cs ?l ?p ?s ?acc] =>
+          let K := fresh "K" in let L := fresh "L" in
+          assert (K : sok limit db st s) by (facts; lia);
+          destruct (q_args_ok st l p s acc K ltac:(facts; lia) ltac:(facts; lia)) as [?K L];
+          destruct (q_args limit E' db am cm offs size cs l p s acc) as [[?vs|?t| | |] ?st];
+          cbn [fst snd] in *; [specialize (L _ eq_refl)|clear L ..]
+      | |- context [q_plain E' db am cm offs size cs ?l ?s] =>
+          let K := fresh "K" in
+          assert (K : sok limit db st (snd (q_plain E' db am cm offs size cs l s)))
+            by (apply q_plain_ok; facts; lia);
+          destruct (q_plain E' db am cm offs size cs l s) as [?r ?st]; cbn [fst snd] in *
+      | |- sok limit db st (snd (q_call E' db _ _ _ _)) => apply q_call_ok; facts; lia
+      | |- sok limit db st (snd (q_switch E' db am cm offs size cs _ _ _ _)) => apply q_switch_ok; facts; lia
+      | |- sok limit db st (snd (q_map E' db am cm offs size cs _ _ _)) => apply q_map_ok; facts; lia
+      end
+    | match goal with |- context [match ?x with _ => _ end] => destruct x eqn:? end
+    | (cbn [fst snd]; facts; lia) ].
+
+Theorem guard_step_ok st a :
+  offs + size <= length st -> db + length st <= S limit ->
+  sok limit db st (snd (guard_step known limit E' db am cm offs size cs st a)).
+Proof.
+  intros H0 Hb. destruct a; cbn [guard_step]; repeat stepB st.
+Qed.
+
+End Frame.
+End Bound.
+
+(* T2 *)
+Theorem guarded_never_exceeds_lemma : forall known limit fuel db am cm st offs size cs a,
+  offs + size <= length st -> db + length st <= S limit ->
+  length st <= length (snd (exec_guarded known limit fuel db am cm st offs size cs a)) /\
+  db + length (snd (exec_guarded known limit fuel db am cm st offs size cs a)) <= S limit.
+Proof.
+  intros known limit. induction fuel as [|f IH]; intros db am cm st offs size cs a H0 Hb.
+  - cbn. lia.
+  - rewrite exec_guarded_S. apply guard_step_ok; auto.
+Qed.
+
+Print Assumptions guarded_never_exceeds_lemma.
+
+
 (* ---------- T3: the guard, not the fuel, stops the runaway recursion ---------- *)
 
 Section Runaway.
